@@ -993,6 +993,19 @@ fn utf8_body(rng: &mut Rng, out: &mut Vec<u8>, escapes: Option<&[&[u8]]>, long: 
                 let p = UTF8_PIECES[rng.usize_below(11)];
                 out.extend_from_slice(p);
             }
+            7 if escapes.is_some() => {
+                // a backslash directly in front of a raw (possibly ill-formed) sequence
+                // or a single arbitrary byte: the generic "escaped character" arm
+                out.push(b'\\');
+                if rng.coin() {
+                    let p = *rng.pick(UTF8_PIECES);
+                    if !p.iter().any(|c| forbid.contains(c)) {
+                        out.extend_from_slice(p);
+                    }
+                } else {
+                    out.push(rng.range(0x80, 0xFF) as u8);
+                }
+            }
             _ => out.push(rng.range(b'a'.into(), b'z'.into()) as u8),
         }
     }
